@@ -121,6 +121,21 @@ class ScanInterp(Interp):
                     add(Lin(k) - x)
                 add(x - init)
                 add(init - x)
+                if w is not None and w >= 32:
+                    # an index cursor (`s[i++]` instead of `*s++`): the same templates as for the pointer cursor, for every
+                    # string it may index (Houdini drops those that do not hold)
+                    for o in st.objs.values():
+                        ln = o.info.get('cstr_len')
+                        if ln is None:
+                            continue
+                        add(x - ln)
+                        add(x - ln - 1)
+                        for m, (xc, ic, wc, ww, sg) in enumerate(newsyms):
+                            if wc[0] != 'phi' or ic is None or m == n:
+                                continue
+                            c = Lin.sym(('$', m))
+                            for sign in (1, -1):
+                                add(c * sign - (ln + 1 - x) * 255)
         if self.extra_cands is not None:
             for c in self.extra_cands(self, st, newsyms, self._inits):
                 add(c)
@@ -555,6 +570,25 @@ def scanner_facts(f):
             for s in i.d['gep']['steps']:
                 if s['k'] == 'index' and s['v']['k'] == 'ci':
                     facts['cursor steps'].add(s['v']['v'] * s['stride'])
+    # the index form of the same walk (`s[i++]`, `i += 2`, `&s[i - 1]`): constant steps applied to integers that index the text
+    idx, work = set(), []
+    for i in insts:
+        if i.op == 'getelementptr' and i.ops[0].k in ('inst', 'arg') and i.ops[0].key() in ptrs:
+            for s in i.d['gep']['steps']:
+                if s['k'] == 'index' and s['v']['k'] == 'inst':
+                    work.append(s['v']['id'])
+    while work:
+        x = work.pop()
+        if x in idx:
+            continue
+        idx.add(x)
+        xi = f.insts[x]
+        if xi.op in ('phi', 'add', 'sub', 'select') + CASTS:
+            work.extend(o.id for o in (xi.ops[1:] if xi.op == 'select' else xi.ops) if o.k == 'inst')
+    for x in idx:
+        xi = f.insts[x]
+        if xi.op in ('add', 'sub') and xi.ops[1].k == 'ci' and xi.ops[0].k == 'inst':
+            facts['cursor steps'].add(xi.ops[1].ival if xi.op == 'add' else -xi.ops[1].ival)
     return {k: tuple(sorted(v)) for k, v in facts.items()}
 
 
